@@ -13,7 +13,7 @@ From Oras Require Import Base.Prelude Generated.GC10 Model.OciCrash Model.OciCra
 From Oras Require Model.OciGC Proofs.OciGC.
 From Oras Require Import Proofs.OciCrashGC.
 From Oras Require Import Model.OciCrashConc Proofs.OciCrashConc.
-From Oras Require Import Proofs.OciCrashOff Proofs.OciCrashSync.
+From Oras Require Import Proofs.OciCrashOff Proofs.OciCrashSync Proofs.OciCrashGo.
 
 (* For every digest/size verification function H, every iteration order of saveIndex,
    every history h of completed Push/Tag/Untag/Delete/SaveIndex operations on a freshly
@@ -433,6 +433,78 @@ Theorem C10_conc_completed_push :
 Proof. exact conc_completed_push_src. Qed.
 Print Assumptions C10_conc_completed_push.
 
+(* ... a Tag that has returned, of a blob that was stored, no other call of its batch naming the
+   same reference: index.json has the reference, whatever else ran at the same time ... *)
+Theorem C10_conc_completed_tag :
+  forall (H : list N -> N) (shuffle : nat -> list entry -> list entry),
+    (forall c l e, In e (shuffle c l) <-> In e l) ->
+    forall (ps : list phase) (calls : list ccall) (is : list nat) (i : nat) (d r : N),
+      phases_quiet H shuffle src_inplace src_unlink_first init ps = true ->
+      let s := run_phases H shuffle src_inplace src_unlink_first init ps in
+      let c := sched shuffle (start H s calls) is in
+      nth_error calls i = Some (CTag d r) -> exists_file (sfs s) (FBlob d) = true ->
+      (forall j x, nth_error calls j = Some x -> j <> i -> (forall d', x <> CTag d' r) /\ x <> CUntag r) ->
+      quietb c = true ->
+      exists l, read_index (cfs c) = Some l /\ In (d, Some r) l.
+Proof. exact conc_completed_tag_src. Qed.
+Print Assumptions C10_conc_completed_tag.
+
+(* ... and an Untag that has returned: index.json does not have the reference. *)
+Theorem C10_conc_completed_untag :
+  forall (H : list N -> N) (shuffle : nat -> list entry -> list entry),
+    (forall c l e, In e (shuffle c l) <-> In e l) ->
+    forall (ps : list phase) (calls : list ccall) (is : list nat) (i : nat) (r : N),
+      phases_quiet H shuffle src_inplace src_unlink_first init ps = true ->
+      let s := run_phases H shuffle src_inplace src_unlink_first init ps in
+      let c := sched shuffle (start H s calls) is in
+      nth_error calls i = Some (CUntag r) ->
+      (forall j x, nth_error calls j = Some x -> j <> i -> (forall d', x <> CTag d' r) /\ x <> CUntag r) ->
+      quietb c = true ->
+      exists l, read_index (cfs c) = Some l /\ forall n, ~ In (n, Some r) l.
+Proof. exact conc_completed_untag_src. Qed.
+Print Assumptions C10_conc_completed_untag.
+
+(* The hypothesis "no other call names the reference" is needed: two Tag calls of one reference,
+   both returned, the reference names the other blob. *)
+Theorem C10_conc_completed_tag_refuted_shared_reference :
+  exists (H : list N -> N) (s : st) (calls : list ccall) (is : list nat),
+    let c := sched (fun _ l => l) (start H s calls) is in
+    nth_error calls 0 = Some (CTag 1 10) /\ quietb c = true /\ read_index (cfs c) = Some [(2, Some 10); (1, None)].
+Proof. exact conc_completed_tag_needs_alone. Qed.
+
+(* The callers as they really are: goroutines that each make a QUEUE of calls one after the other,
+   the program of each call decided when that call starts (on the state the other goroutines have
+   produced by then).  After any history (phases, then operations with crashes), for every set of
+   queues and every schedule, at every prefix: the directory is one the property accepts; and when
+   every goroutine has made all its calls and the last has returned, index.json is exactly the
+   index of the resolver. *)
+Theorem C10_goroutines_crash_safe :
+  forall (H : list N -> N) (shuffle : nat -> list entry -> list entry),
+    (forall c l e, In e (shuffle c l) <-> In e l) ->
+    forall (ps : list phase) (h : list hop) (qs : list (list ccall)) (is : list nat),
+      phases_quiet H shuffle src_inplace src_unlink_first init ps = true ->
+      let s := runc H shuffle src_inplace src_unlink_first true h
+                    (run_phases H shuffle src_inplace src_unlink_first init ps) in
+      let g := gsched H shuffle (gstart s qs) is in
+      layout_ok (cfs (gc g)) /\ blob_ok H (cfs (gc g)) /\ index_ok (cfs (gc g)) /\
+      (forall d, has (sfs s) (FBlob d) -> has (cfs (gc g)) (FBlob d)) /\
+      (gquietb g = true ->
+       exists l, read_index (cfs (gc g)) = Some l /\
+                 forall e, In e l <-> In e (save (ctags (gc g)) (cdigs (gc g)))).
+Proof. exact go_crash_safe_src. Qed.
+Print Assumptions C10_goroutines_crash_safe.
+
+(* satisfiable; and "decided when it starts" matters: a Tag of a blob that another goroutine pushes
+   in the same batch takes effect iff it starts after the blob was published *)
+Theorem C10_goroutines_example :
+  let H := fun _ : list N => 1 in
+  let id := fun (_ : nat) (l : list entry) => l in
+  let g1 := gsched H id (gstart init [[CPush 1 [5] true; CTag 1 10]; [CUntag 10]]) [1; 0; 0; 0; 0; 0; 0; 0; 0; 0; 0; 0; 0; 0]%nat in
+  let g2 := gsched H id (gstart init [[CPush 1 [5] true]; [CTag 1 10]]) [1; 0; 0; 0; 0; 0; 0; 0; 1]%nat in
+  gquietb g1 = true /\ read_index (cfs (gc g1)) = Some [(1, Some 10)] /\
+  gquietb g2 = true /\ read_index (cfs (gc g2)) = Some [(1, None)].
+Proof. exact go_example. Qed.
+
 (* Without indexLock (the same threads, the lock ignored) the first statement is false: two Tag
    calls, the earlier snapshot published last; both have returned, the resolver has both
    references, index.json has one. *)
@@ -527,6 +599,14 @@ Print Assumptions C10_source_order.
 Theorem C10_source_locks : src_locks_ok = true.
 Proof. exact src_locks. Qed.
 Print Assumptions C10_source_locks.
+
+(* Initialisation and loading as the model has them (new_steps, reopen, load, load_okb), read off
+   the source: NewWithContext creates storage, blobs/, oci-layout, index.json in this order; each
+   file is written (atomically) only when opening it failed and validated / loaded otherwise;
+   loadIndex enters every index entry by digest, by name iff it has a reference name, and indexes it. *)
+Theorem C10_source_init : src_init_ok = true.
+Proof. exact src_init. Qed.
+Print Assumptions C10_source_init.
 
 (* The code before the repair (os.WriteFile on index.json itself, [inplace = true]):
    the theorem is false.  Witness: SaveIndex on the fresh store cut after open(O_TRUNC). *)
